@@ -1,5 +1,6 @@
 \* core level, quick: reference shield/fuel/fuel/plenum + 4 followers (default changer); calls on the reference (<= 1 changed component or per-block uniform) interleaved with manageCoreMesh, 2 actions
 CONSTANTS
+  UseDb = TRUE
   Cores <- CoresQuick
   Designs <- NoTriples
   Growths <- G3
@@ -8,6 +9,8 @@ CONSTANTS
   BreakStep = 1
   FromInput <- FromNone
   ExplicitTargets = FALSE
+  Replacements <- NoRepl
+  Edits <- NoEdits
   Refusals = FALSE
   ZeroHeightRefused = TRUE
   AlignTarget = FALSE
@@ -32,4 +35,5 @@ INVARIANT SnapLeavesOthers
 INVARIANT ReferenceUntouchedBySnap
 INVARIANT CoreMeshIsReference
 INVARIANT CallsLeaveFollowers
+INVARIANT SaveLoadKeepsState
 CHECK_DEADLOCK FALSE
